@@ -32,7 +32,7 @@ func (c03) NumCases(tier string) int {
 }
 
 func (c03) Rule() string {
-	return "statements of the full language (every scalar/aggregate function, aliases, ORDER BY, GROUP BY, LIMIT, PUT/REMOVE/DELETE) over 7 store families of 0..4 batches; each drained row-at-a-time and in batches at 3 batch sizes from {1,2,3,5,32}(+); rows compared by content (tie runs under ORDER BY as multisets), write statements by post-state. Non-trivial: batch mode completed without error and returned at least one row (or changed the store); distinct by (statement text, store) hash."
+	return "statements of the full language (every scalar/aggregate function, aliases, ORDER BY, GROUP BY, LIMIT, PUT/REMOVE/DELETE) over 8 store families (incl. one whose values are all JSON documents with nested objects and arrays of objects) of 0..4 batches; each drained row-at-a-time and in batches at 3 batch sizes from {1,2,3,5,32}(+); rows compared by content (tie runs under ORDER BY as multisets), write statements by post-state. Non-trivial: batch mode completed without error and returned at least one row (or changed the store); distinct by (statement text, store) hash."
 }
 
 func (c03) Assumptions() []string {
@@ -58,7 +58,7 @@ func (c03) Gates(tier string, m map[string]int64) []rt.Gate {
 	return gs
 }
 
-var c03Families = []string{gen.FTiny, gen.FNum, gen.FNum, gen.FFloat, gen.FMixed, gen.FMixed, gen.FBinary, gen.FWide, gen.FWide, gen.FTies, gen.FRel, gen.FRel}
+var c03Families = []string{gen.FTiny, gen.FNum, gen.FNum, gen.FFloat, gen.FMixed, gen.FMixed, gen.FBinary, gen.FWide, gen.FWide, gen.FTies, gen.FRel, gen.FRel, gen.FJSON}
 
 func fullGenFor(c *rt.Ctx, st *gen.Store, r *rt.Rand) *gen.FullGen {
 	g := &gen.FullGen{R: r, KeyLits: st.KeyLiterals(r), Avoid: c.Avoid, Family: st.Family}
